@@ -12,6 +12,25 @@ COMMON_NOTE = ("Trusted: Lean 4.33 kernel; axioms ⊆ {propext, Classical.choice
 
 # id -> (technique, level text, level note extra, design_ref)
 CHECKS = {
+    "C18": ("Lean 4 proof of the row arithmetic of PFITSReader.read_block / read_plan (divmod by NSBLK, rows to read, "
+            "slice) against the whole-file read, reusing the C01 block plan + differential correspondence on synthetic "
+            "PSRFITS files + independently calibrated-sample oracle",
+            "Theorems readSubints_eq, readRows_eq, readBlock_eq_whole (every in-range request, aligned or not), "
+            "readBlock_out_of_range, readPlan_blocks / readPlan_covers (every gulp: each row exactly once, in order), "
+            "readBlock_map (per-element calibration / flip commute with every read).",
+            "Rows are abstract (unpacking, polarisation selection, scale/offset/weight, frequency flip are per-element "
+            "and validated by the oracle against samples calibrated independently from the generator's inputs); only "
+            "NPOL=4 Stokes/Coherence layouts are readable by the library (others are outside the property); "
+            "astropy.io.fits is trusted.", "§5 C18"),
+    "C20": ("Lean 4 proof that every streaming writer's op sequence is append-only with the header first and that "
+            "EVERY byte-length truncation reads back as the first k complete samples (on top of C04/C05) + file-op "
+            "inventory REGENERATED from the source + write-by-write disk snapshots, truncation sweep and SIGKILL runs",
+            "Theorems append_only, states_writerOps, prefix_chain(_ordered), header_never_patched, complete_on_return, "
+            "truncation_readable, state_readable(_cwrite), truncation_mono, writer_ops_inventory (decide over the "
+            "generated inventory: only open('w+')/write/tofile/close reach an output file; header written once, first).",
+            "OS-level durability/atomicity of write(2) is outside the model (exercised by SIGKILL runs only); the op "
+            "sequences of the streaming loops are tied by wrapping FileWriter.write/cwrite from the harness; a "
+            "truncated file is read with read_block.", "§5 C20"),
     "C15": ("Lean 4 proof over ℚ of the affine laws of order statistics and of every modelled estimator (sort under "
             "monotone/antitone maps, median, percentile, IQR, MAD incl. fallback, Qn, Sn, gapper, variance), of z-score "
             "equivariance for any law-abiding (loc, scale) pair, of the zero-scale guard and of per-lane axis semantics "
